@@ -448,6 +448,166 @@ def build (env : Nat → Nat → (Nat → α) → DV α) (thr : α) : Nat → Ex
 def evalTree (env : Nat → Nat → (Nat → α) → DV α) (thr : α) (n : Nat) (e : Expr α) (x : Nat → α) : DV α :=
   (build env thr n e).eval x
 
+/-! ### Sessions: function objects whose public parameters are edited after construction,
+    trees built on them, and a point buffer owned by the caller
+
+`MDOLinearFunction.coefficients` / `.value_at_zero`, `MDOQuadraticFunction.quad_coeffs` /
+`.linear_coeffs` and `MDOFunction.func` / `.jac` are public read/write attributes (the array
+getters hand out the internal arrays, which can be edited in place). The state of such an object
+in the code is *exactly* these attributes: `_func_to_wrap` / `_jac_to_wrap` read them at every
+call and nothing derived from them is kept. The operation makers, `FunctionRestriction`,
+`LinearCompositeFunction`, `Concatenate`, the aggregation wrappers call their operands at every
+call as well and keep nothing about the points they were called at. Hence a session
+  (construct / set / edit in place)*  interleaved with  (write the point buffer | evaluate | jac)*
+is a state machine whose state is the current parameters and the current content of the buffer. -/
+
+/-- A function object with settable public parameters. -/
+inductive FnObj (α : Type) where
+  /-- `MDOLinearFunction`: `coefficients` (m x n), `value_at_zero` (m). -/
+  | linear (A : List (List α)) (b : List α)
+  /-- `MDOQuadraticFunction`: `quad_coeffs`, `linear_coeffs`, zero-order coefficient. -/
+  | quadratic (Q : List (List α)) (b : List α) (c : α)
+  /-- `MDOFunction` wrapping user callables `func` / `jac` (polynomials in the driver). -/
+  | callable (ps : List (List (Mono α)))
+
+/-- The leaf a tree built on the object evaluates: the object with its *current* parameters. -/
+def FnObj.leaf : FnObj α → Expr α
+  | .linear A b => .lin A.length A b
+  | .quadratic Q b c => .quad Q b c
+  | .callable ps => .poly ps
+
+/-- The tree that is evaluated when a tree built on the objects is called: a reference
+    `user id` to a registered object is the object as it is *now*. -/
+def subst (objs : Nat → Option (FnObj α)) : Expr α → Expr α
+  | .user id => match objs id with
+    | some o => o.leaf
+    | none => .user id
+  | .poly ps => .poly ps
+  | .lin m A b => .lin m A b
+  | .quad Q b c => .quad Q b c
+  | .bin op a b => .bin op (subst objs a) (subst objs b)
+  | .binC op a c => .binC op (subst objs a) c
+  | .neg a => .neg (subst objs a)
+  | .offset a c => .offset (subst objs a) c
+  | .restrict N fz vals a => .restrict N fz vals (subst objs a)
+  | .lrestrict fz vals a => .lrestrict fz vals (subst objs a)
+  | .lincomp K A a => .lincomp K A (subst objs a)
+  | .concat a b => .concat (subst objs a) (subst objs b)
+  | .normalize lb ub mask a => .normalize lb ub mask (subst objs a)
+  | .taylor1 xh a => .taylor1 xh (subst objs a)
+  | .taylor2 xh H a => .taylor2 xh H (subst objs a)
+  | .convexLin xh mask a => .convexLin xh mask (subst objs a)
+  | .agg kind idx scale a => .agg kind idx scale (subst objs a)
+
+/-- In-place assignment `M[i, j] = v`. -/
+def setEntry (M : List (List α)) (i j : Nat) (v : α) : List (List α) :=
+  M.set i ((M.getD i []).set j v)
+
+/-- State of a session: the registered objects and the content of the caller's point buffer. -/
+structure Sess (α : Type) where
+  objs : Nat → Option (FnObj α)
+  x : List α
+
+def Sess.empty : Sess α := { objs := fun _ => none, x := [] }
+
+def Sess.put (s : Sess α) (id : Nat) (o : FnObj α) : Sess α :=
+  { s with objs := fun k => if k = id then some o else s.objs k }
+
+/-- Operations of a session. -/
+inductive SOp (α : Type) where
+  /-- `MDOLinearFunction(A, name, value_at_zero=b)` -/
+  | newLin (id : Nat) (A : List (List α)) (b : List α)
+  /-- `MDOQuadraticFunction(Q, name, linear_coeffs=b, value_at_zero=c)` -/
+  | newQuad (id : Nat) (Q : List (List α)) (b : List α) (c : α)
+  /-- `MDOFunction(func, name, jac=jac)` -/
+  | newCallable (id : Nat) (ps : List (List (Mono α)))
+  /-- `q.quad_coeffs = Q` (2-dimensional square array, else `ValueError`) -/
+  | setQuadCoeffs (id : Nat) (Q : List (List α))
+  /-- `q.linear_coeffs = b` (as many as inputs, else `ValueError`) -/
+  | setQuadLinCoeffs (id : Nat) (b : List α)
+  /-- `f.coefficients = A` -/
+  | setLinCoeffs (id : Nat) (A : List (List α))
+  /-- `f.value_at_zero = b` (array with one entry per output, else `ValueError`) -/
+  | setLinValueAtZero (id : Nat) (b : List α)
+  /-- `f.value_at_zero = c` (a number: replicated) -/
+  | setLinValueAtZeroNum (id : Nat) (c : α)
+  /-- `f.func = ...; f.jac = ...` -/
+  | setCallables (id : Nat) (ps : List (List (Mono α)))
+  /-- `q.quad_coeffs[i, j] = v` (the getter returns the internal array) -/
+  | editQuadCoeff (id i j : Nat) (v : α)
+  /-- `q.linear_coeffs[0, j] = v` -/
+  | editQuadLinCoeff (id j : Nat) (v : α)
+  /-- `f.coefficients[i, j] = v` -/
+  | editLinCoeff (id i j : Nat) (v : α)
+  /-- `f.value_at_zero[i] = v` -/
+  | editLinValueAtZero (id i : Nat) (v : α)
+  /-- the caller writes its point buffer (in place, or by taking another array) -/
+  | writeX (xs : List α)
+  /-- `evaluate(x)` and `jac(x)` of a tree of `n` inputs built on the objects, `x` the buffer -/
+  | call (n : Nat) (e : Expr α)
+
+/-- One step: new state and, for a call, the (value, Jacobian) pair returned. A setter that
+    raises leaves the state unchanged. -/
+def step (env : Nat → Nat → (Nat → α) → DV α) (thr : α) (s : Sess α) : SOp α → Sess α × Option (DV α)
+  | .newLin id A b => (s.put id (.linear A b), none)
+  | .newQuad id Q b c =>
+    -- `linear_coeffs=None` (or empty): the first-order part is created with zero coefficients
+    (s.put id (.quadratic Q (if b.isEmpty then List.replicate Q.length 0 else b) c), none)
+  | .newCallable id ps => (s.put id (.callable ps), none)
+  | .setQuadCoeffs id Q =>
+    match s.objs id with
+    | some (.quadratic _ b c) =>
+      if Q.all (fun r => r.length == Q.length) then (s.put id (.quadratic Q b c), none) else (s, none)
+    | _ => (s, none)
+  | .setQuadLinCoeffs id b =>
+    match s.objs id with
+    | some (.quadratic Q _ c) =>
+      if b.length = Q.length then (s.put id (.quadratic Q b c), none) else (s, none)
+    | _ => (s, none)
+  | .setLinCoeffs id A =>
+    match s.objs id with
+    | some (.linear _ b) => (s.put id (.linear A b), none)
+    | _ => (s, none)
+  | .setLinValueAtZero id b =>
+    match s.objs id with
+    | some (.linear A _) => if b.length = A.length then (s.put id (.linear A b), none) else (s, none)
+    | _ => (s, none)
+  | .setLinValueAtZeroNum id c =>
+    match s.objs id with
+    | some (.linear A _) => (s.put id (.linear A (List.replicate A.length c)), none)
+    | _ => (s, none)
+  | .setCallables id ps =>
+    match s.objs id with
+    | some (.callable _) => (s.put id (.callable ps), none)
+    | _ => (s, none)
+  | .editQuadCoeff id i j v =>
+    match s.objs id with
+    | some (.quadratic Q b c) => (s.put id (.quadratic (setEntry Q i j v) b c), none)
+    | _ => (s, none)
+  | .editQuadLinCoeff id j v =>
+    match s.objs id with
+    | some (.quadratic Q b c) => (s.put id (.quadratic Q (b.set j v) c), none)
+    | _ => (s, none)
+  | .editLinCoeff id i j v =>
+    match s.objs id with
+    | some (.linear A b) => (s.put id (.linear (setEntry A i j v) b), none)
+    | _ => (s, none)
+  | .editLinValueAtZero id i v =>
+    match s.objs id with
+    | some (.linear A b) => (s.put id (.linear A (b.set i v)), none)
+    | _ => (s, none)
+  | .writeX xs => ({ s with x := xs }, none)
+  | .call n e => (s, some (evalTree env thr n (subst s.objs e) (vec s.x)))
+
+/-- The state after a history. -/
+def Sess.after (env : Nat → Nat → (Nat → α) → DV α) (thr : α) (s : Sess α) (ops : List (SOp α)) : Sess α :=
+  ops.foldl (fun s op => (step env thr s op).1) s
+
+/-- What `op` returns when it is issued after the history `ops`. -/
+def Sess.answer (env : Nat → Nat → (Nat → α) → DV α) (thr : α) (s : Sess α) (ops : List (SOp α))
+    (op : SOp α) : Option (DV α) :=
+  (step env thr (s.after env thr ops) op).2
+
 end Ordered
 
 end GV.C10
